@@ -48,7 +48,7 @@ if res["confirmed"]:
         assert sh("git -C /repo worktree add -q --detach %s HEAD" % wt2)[0] == 0
         assert sh("git apply %s" % patch, cwd=wt2)[0] == 0
         for c in checks:
-            rc, out = sh("ALGOPY_VERIF_REPO=%s VERIF_OUT=%s timeout 1500 ./check %s" % (wt2, out2, c), cwd=VR, timeout=1700)
+            rc, out = sh("VERIF_TLC_XMX=10g ALGOPY_VERIF_REPO=%s VERIF_OUT=%s timeout 1500 ./check %s" % (wt2, out2, c), cwd=VR, timeout=1700)
             sigs = sorted(set(l.split("#", 1)[1].strip()[:120] for l in out.splitlines() if l.startswith("VIOLATION")))
             det[c] = {"exit": rc, "violations": sigs[:6]}
             if rc not in (0, 1):
